@@ -20,7 +20,12 @@ RULE = ("per run: listen_host (loopback v4/v6, all interfaces, IPv4/IPv6 wildcar
         "real Proxyserver on SimNet, optionally re-configured mid-run, incl. 2-3 listeners (TCP or UDP) bound to different "
         "addresses but ONE port number through per-mode '@addr:port' specs in any order, and a listener added at runtime "
         "whose bind takes 0-1.5 s of virtual time while clients of the running instance issue requests inside that window "
-        "(then probed with loop destinations, optionally removed again); a history of 3-8 requests whose destination is a "
+        "(then probed with loop destinations, optionally removed again), and option-update histories (family toggle, ~15% "
+        "of the runs) in which a listener is added and the mode list / the `server` option changes again (mode dropped, "
+        "mode=[], server=False, another kind of listener on the same port, then possibly re-added) 0 s .. more than the "
+        "bind time later, i.e. also while the listener start is still pending, after which EVERY listening socket of the "
+        "simulated network (SimNet listener table, not Proxyserver.servers) is asked to proxy to its own address; "
+        "a history of 3-8 requests whose destination is a "
         "spelling of an own listener (localhost any case / trailing dot, 127.0.0.0/8, ::1 and re-spellings, IPv4-mapped "
         "loopback, 0.0.0.0, ::, the explicit listen address and re-spellings) or a control (other port, other transport, "
         "foreign host), reached via absolute-form, CONNECT, SOCKS5 (name/IPv4/IPv6), transparent original destination, "
@@ -41,7 +46,9 @@ ASSUMPTIONS = ["a listener on all interfaces (listen_host '') owns an IPv4 and a
 EXPECTED_PROBES = ["loop_refused", "control_served", "via_absolute", "via_connect", "via_socks5", "via_original_dst",
                    "via_host_header", "via_rewrite", "via_mode_target", "via_udp", "cross_transport_control",
                    "reconfigured", "no_verdict", "shared_port_loop_refused", "shared_port_udp_loop_refused",
-                   "request_during_listener_start", "late_listener_loop_refused"]
+                   "request_during_listener_start", "late_listener_loop_refused", "toggle_update_during_start",
+                   "toggle_server_off_during_start", "toggle_readded_during_start", "toggle_listener_probed",
+                   "toggle_loop_refused"]
 
 
 def B(s):
@@ -292,7 +299,93 @@ def auth(host, port):
     return (f"[{host}]" if ":" in host else host) + f":{port}"
 
 
+TOGGLE_KINDS = ["regular", "regular", "socks5", "transparent", "reverse:http://o.test:80", "reverse_self_tcp",
+                "reverse_self_udp"]
+
+
+def gen_toggle(t):
+    """Option-update histories in which the mode list / the `server` option changes AGAIN while the listener that the
+    previous update asked for is still being started (back-to-back updates, or a simulated slow bind); afterwards every
+    listening socket that exists in the simulated network is asked to proxy to its own address."""
+    listen_host = t.choice(["127.0.0.1", "127.0.0.1", "", "", "0.0.0.0", "::1", "::", "10.0.0.1"])
+    listen_port = t.choice([8080, 8080, 3128, 9000])
+    p2, p3 = listen_port + 1, listen_port + 2
+    base = ["regular"] if t.random() < 0.6 else ["regular", f"socks5@{p2}"]
+    lhost_new = t.choice(SHARED_V4 + ["::1"]) if t.random() < 0.3 else None
+    at = f"@{lhost_new}:{p3}" if lhost_new is not None else f"@{p3}"
+    lh = lhost_new if lhost_new is not None else listen_host
+    # a plain spelling of the new listener's own socket address
+    own = lh if lh not in ("",) else t.choice(["127.0.0.1", "localhost", "::1"])
+    targets = {}
+
+    def spec_of(kind):
+        if kind == "reverse_self_tcp":
+            s = f"reverse:tcp://{auth(own, p3)}{at}"
+        elif kind == "reverse_self_udp":
+            s = f"reverse:udp://{auth(own, p3)}{at}"
+        else:
+            return kind + at
+        targets[s] = [own, p3]
+        return s
+    kind = t.choice(TOGGLE_KINDS)
+    added = spec_of(kind)
+    with_added = list(base)
+    with_added.insert(t.randrange(len(with_added) + 1), added)
+    delay = t.choice([0, 0, 0.01, 0.2, 0.2, 1.5])
+
+    def wait():
+        x = t.random()
+        if x < 0.45:
+            return 0
+        if x < 0.65:
+            return delay * 0.25
+        if x < 0.8:
+            return delay * 0.6
+        return delay + 0.3  # the previous update is through: no overlap (control)
+    steps = [{"set": {"mode": with_added}, "wait": wait()}]
+    x = t.random()
+    if x < 0.4:
+        steps.append({"set": {"mode": list(base)}, "wait": wait()})
+        back = {"mode": list(with_added)}
+    elif x < 0.7:
+        steps.append({"set": {"server": False}, "wait": wait()})
+        back = {"server": True}
+    elif x < 0.82:
+        steps.append({"set": {"mode": []}, "wait": wait()})
+        back = {"mode": list(with_added)}
+    else:
+        # another kind of listener takes the place of the one that is still being started
+        other = spec_of(t.choice([k for k in TOGGLE_KINDS if k != kind and (kind, k) != ("reverse_self_tcp", "reverse_self_udp")
+                                  and (k, kind) != ("reverse_self_tcp", "reverse_self_udp")]))
+        swapped = [other if m == added else m for m in with_added]
+        steps.append({"set": {"mode": swapped}, "wait": wait()})
+        back = {"mode": list(with_added)}
+    if t.random() < 0.4:
+        steps.append({"set": back, "wait": wait()})
+        if t.random() < 0.3:
+            steps.append({"set": dict(steps[1]["set"]), "wait": wait()})
+    ops = []
+    for _ in range(t.randrange(0, 2)):
+        host, port = gen_dest(t, listen_host, [listen_port, p3])
+        ops.append({"op": "request", "mode": "regular", "via": t.choice(["absolute", "connect", "rewrite"]),
+                    "host": host, "port": port, "gap": 0})
+    plan = [{"dest": t.choice(["own", "own", "localhost", "127.0.0.1", "::1"]), "pick": t.randrange(6)}
+            for _ in range(t.choice([1, 2, 2]))]
+    ops.append({"op": "toggle", "steps": steps, "bind_delay": delay, "plan": plan, "targets": targets})
+    return {"family": "selfconnect-toggle", "eager": t.random() < 0.5, "listen_host": listen_host,
+            "listen_port": listen_port, "modes": base, "ops": ops,
+            "connection_strategy": t.choice(["eager", "eager", "lazy"])}
+
+
 def generate(rng, tier):
+    sc = _generate_base(rng, tier)
+    t = rng.at("c23-toggle")
+    if t.random() < 0.15:
+        return gen_toggle(t)
+    return sc
+
+
+def _generate_base(rng, tier):
     r = rng.at("c23")
     listen_host = r.choice(LISTEN_HOSTS)
     listen_port = r.choice([8080, 8080, 3128, 9000])
@@ -582,6 +675,9 @@ def execute(sc):
             op = state["op"] or {}
             state["connects"].append((host, port, proto, verdict))
             if verdict is True:
+                if (proto, port) in state.get("orphan_ports", ()):
+                    # the listening socket is alive in the network but belongs to no server instance mitmproxy knows of
+                    info = dict(info, listener="orphan")
                 violate("self_connect", info,
                         f"upstream {proto} connect to {host!r}:{port} while listening on "
                         f"{[l[:3] for l in model.listeners]} (real listen_addrs={w.ps.listen_addrs()}); "
@@ -652,15 +748,96 @@ def execute(sc):
 
         counter = [0]
 
-        async def do_request(op):
+        async def do_request(op, srv=None):
             k = counter[0]
             counter[0] += 1
             state.update(op=op, k=k, connects=[], sc=[])
-            out = await run_op(w, op, k)
+            out = await run_op(w, op, k, srv)
             state["op"] = None
             return out
 
+        async def do_toggle(op):
+            delay = op["bind_delay"]
+            specs = set(sc["modes"])
+            for st in op["steps"]:
+                specs.update(st["set"].get("mode", ()))
+            # while listeners are being stopped/started, destinations on their ports carry no verdict
+            model.unsure = {mode_listener(m, sc["listen_host"], sc["listen_port"])[1] for m in specs}
+            state["bind_delay"] = delay
+            prev = None
+            hist = []
+            for st in op["steps"]:
+                if prev is not None and (prev["wait"] == 0 or prev["wait"] < delay):
+                    probe("toggle_update_during_start")
+                    if st["set"].get("server") is False:
+                        probe("toggle_server_off_during_start")
+                    if st["set"].get("server") is True or (len(hist) >= 2 and st["set"] == hist[-2]):
+                        probe("toggle_readded_during_start")
+                w.master.options.update(**st["set"])
+                hist.append(st["set"])
+                prev = st
+                if st["wait"]:
+                    await asyncio.sleep(st["wait"])
+            # let everything settle (virtual time is free)
+            await asyncio.sleep(delay * (len(op["steps"]) + 1) + 1.0)
+            for _ in range(20):
+                if not w.ps.servers.is_updating:
+                    break
+                await asyncio.sleep(delay + 0.5)
+            state["bind_delay"] = 0
+            # ground truth: the listening sockets that exist in the simulated network NOW are mitmproxy's own
+            table = sorted(w.net.listeners.items(), key=lambda kv: (kv[0][0], kv[0][1] or "", kv[0][2]))
+            model.listeners = [(host or "", port, (proto,), "net") for (proto, host, port), _ in table]
+            model.unsure = set()
+            running = [id(i) for i in w.ps.servers]
+            orphans = set()
+            for (proto, host, port), srv in table:
+                if id(getattr(srv.cb, "__self__", None)) not in running:
+                    orphans.add((proto, port))
+                    probe("orphan_listener")
+            state["orphan_ports"] = orphans
+            outs = []
+            for (proto, host, port), srv in table:
+                inst = getattr(srv.cb, "__self__", None)
+                spec = inst.mode.full_spec
+                name = spec.split("@")[0].split(":")[0]
+                lhost = host or ""
+                for pl in op["plan"]:
+                    if spec in op["targets"]:
+                        dhost, dport = op["targets"][spec]
+                        via = "mode_target_udp" if proto == "udp" else "mode_target"
+                    else:
+                        if proto != "tcp":
+                            continue
+                        own = lhost if lhost else "127.0.0.1"
+                        dhost = own if pl["dest"] == "own" else pl["dest"]
+                        if denotes(lhost, dhost)[0] is not True:
+                            dhost = own
+                        dport = port
+                        numeric = _ip(dhost) is not None
+                        if name == "regular":
+                            vias = ["absolute", "absolute", "connect", "connect", "rewrite", "rewrite_headers"]
+                        elif name == "socks5":
+                            vias = ["socks5_name", "socks5_ip"] if numeric else ["socks5_name"]
+                        elif name == "transparent":
+                            vias = ["original_dst", "host_header"] if numeric else ["host_header", "transparent_absolute"]
+                        else:
+                            vias = ["host_header", "rewrite", "rewrite_headers", "transparent_absolute"]
+                        via = vias[pl["pick"] % len(vias)]
+                    rqo = {"op": "request", "mode": spec, "via": via, "host": dhost, "port": dport}
+                    out = await do_request(rqo, srv)
+                    probe("toggle_listener_probed")
+                    if any(x[3] is True and x[4] for x in state["sc"]):
+                        probe("toggle_loop_refused")
+                    outs.append((proto, listen_class(lhost), name, via, dest_class(dhost), out,
+                                 tuple(state["connects"]), tuple(state["sc"])))
+            state["orphan_ports"] = set()
+            log.append(("toggle", tuple(sorted(st["set"])[0] for st in op["steps"]), delay, len(orphans), tuple(outs)))
+
         for k, op in enumerate(sc["ops"]):
+            if op["op"] == "toggle":
+                await do_toggle(op)
+                continue
             if op["op"] == "set_modes":
                 delay = op.get("bind_delay", 0)
                 old_modes = [l[3] for l in model.listeners]
@@ -700,24 +877,29 @@ def execute(sc):
         await asyncio.sleep(5.0)
         return None
 
-    async def run_op(w, op, k):
+    async def run_op(w, op, k, srv=None):
         via = op["via"]
         host, port = op["host"], op["port"]
         a = auth(host, port)
         path = f"/p{k}"
         peer = ("192.168.1.7", 50000 + k)
         udp = via == "mode_target_udp"
-        try:
-            inst = w.instance(op["mode"])
-        except KeyError:
-            return "no_such_listener"
-        if not inst.listen_addrs:
-            return "listener_down"
+        if srv is not None:
+            # through a listening socket of the simulated network: whatever callback that socket was created with
+            handle, addrs = srv.cb, [srv.sockets[0].getsockname()]
+        else:
+            try:
+                inst = w.instance(op["mode"])
+            except KeyError:
+                return "no_such_listener"
+            if not inst.listen_addrs:
+                return "listener_down"
+            handle, addrs = inst.handle_stream, list(inst.listen_addrs)
         if udp:
-            sockname = [la for la in inst.listen_addrs][-1][:2]
+            sockname = addrs[-1][:2]
             c = w.net.client_dgram(peer, sockname)
             c.feed(dns_query(k))
-            c.task = w.loop.create_task(inst.handle_stream(c, c), name=f"sim-client-{c.id}")
+            c.task = w.loop.create_task(handle(c, c), name=f"sim-client-{c.id}")
             w.client_tasks.append(c.task)
             for _ in range(3):
                 if c.rx_log or c.proxy_closed:
@@ -728,7 +910,12 @@ def execute(sc):
             await asyncio.sleep(0.01)
             return out
         odst = (host, port) if via == "original_dst" else (("93.184.216.34", 80) if op["mode"].startswith("transparent") else None)
-        c = w.connect_client(mode=op["mode"], peername=peer, original_dst=odst)
+        if srv is not None:
+            c = w.net.client_conn(peer, addrs[0][:2], original_dst=odst)
+            c.task = w.loop.create_task(handle(c.reader, c.writer), name=f"sim-client-{c.id}")
+            w.client_tasks.append(c.task)
+        else:
+            c = w.connect_client(mode=op["mode"], peername=peer, original_dst=odst)
 
         async def until(pred, timeout=5.0):
             t_end = w.loop.time() + timeout
